@@ -115,7 +115,9 @@ class Model:
 
     PACKAGE = 'concepts'
 
-    def __init__(self, root=None):
+    def __init__(self, root=None, overlay=None):
+        """``overlay`` maps 'concepts/x.py' to replacement source text (self-test variants; nothing is written)."""
+        overlay = overlay or {}
         self.root = pathlib.Path(root) if root is not None else repo_root()
         self.pkgdir = self.root / self.PACKAGE
         if not self.pkgdir.is_dir():
@@ -128,7 +130,9 @@ class Model:
             if parts[-1] == '__init__':
                 parts = parts[:-1]
             name = '.'.join(parts) if parts else '__init__'
-            src = path.read_text(encoding='utf-8')
+            src = overlay.get(f'{self.PACKAGE}/{rel.as_posix()}')
+            if src is None:
+                src = path.read_text(encoding='utf-8')
             h.update(str(rel).encode() + b'\0' + src.encode('utf-8') + b'\0')
             try:
                 mod = Module(name, path, f'{self.PACKAGE}/{rel.as_posix()}', src)
